@@ -196,12 +196,16 @@ class AsyncServer(base_server.BaseServer):
                 if sid in self.sockets:  # pragma: no cover
                     del self.sockets[sid]
         elif self.sockets:
+            clients = list(self.sockets.items())
             await asyncio.wait([
                 asyncio.create_task(client.close(
                     reason=self.reason.SERVER_DISCONNECT))
-                for client in self.sockets.values()
+                for _, client in clients
             ])
-            self.sockets = {}
+            # only forget the clients that were closed, others may have
+            # connected in the meantime
+            for sid, _ in clients:
+                self.sockets.pop(sid, None)
 
     async def handle_request(self, *args, **kwargs):
         """Handle an HTTP request from the client.
